@@ -51,18 +51,27 @@ pub(crate) struct Civ { y: i16, mo: i8, d: i8, h: i8, mi: i8, doy: i16, wy: i16,
 fn is_leap(y: i32) -> bool { (y % 4 == 0 && y % 100 != 0) || y % 400 == 0 }
 const CUM: [i32; 12] = [0, 31, 59, 90, 120, 151, 181, 212, 243, 273, 304, 334];
 const MDAYS: [i32; 12] = [31, 28, 31, 30, 31, 30, 31, 31, 30, 31, 30, 31];
-/// Monday = 1 ... Sunday = 7 for Jan 1st of year y (2014 <= y <= 2022), from the known anchor 2014-01-01 = Wednesday
+/// Monday = 1 ... Sunday = 7 for Jan 1st of year y (2000 <= y <= 2028); table from the proleptic Gregorian calendar
+/// (2014 Wed, 2015 Thu, 2016 Fri, 2017 Sun, 2018 Mon, 2019 Tue, 2020 Wed, 2021 Fri, 2022 Sat, ...)
 fn jan1_weekday(y: i32) -> i32 {
-    // 2014 Wed, 2015 Thu, 2016 Fri, 2017 Sun, 2018 Mon, 2019 Tue, 2020 Wed, 2021 Fri, 2022 Sat
-    const JAN1: [i32; 9] = [3, 4, 5, 7, 1, 2, 3, 5, 6];
-    JAN1[(y - 2014) as usize]
+    const JAN1: [i32; 29] = [6, 1, 2, 3, 4, 6, 7, 1, 2, 4, 5, 6, 7, 2, 3, 4, 5, 7, 1, 2, 3, 5, 6, 7, 1, 3, 4, 5, 6];
+    JAN1[(y - 2000) as usize]
+}
+/// year range of the symbolic civil times: 2014..=2021 (quick tier) unless a thorough harness widens it first
+static YEAR_LO: std::sync::atomic::AtomicI16 = std::sync::atomic::AtomicI16::new(2014);
+static YEAR_HI: std::sync::atomic::AtomicI16 = std::sync::atomic::AtomicI16::new(2021);
+fn widen_years() {
+    // a full 28-year cycle of the Gregorian calendar between century exceptions: all 14 year shapes
+    YEAR_LO.store(2001, std::sync::atomic::Ordering::SeqCst);
+    YEAR_HI.store(2028, std::sync::atomic::Ordering::SeqCst);
 }
 fn weeks_in_year(y: i32) -> i32 { let j = jan1_weekday(y); if j == 4 || (is_leap(y) && j == 3) { 53 } else { 52 } }
 
 /// arbitrary valid civil minute in 2014..=2021 with its derived day-of-year and ISO week date
 fn any_civ() -> Civ {
     let y: i16 = kani::any(); let mo: i8 = kani::any(); let d: i8 = kani::any(); let h: i8 = kani::any(); let mi: i8 = kani::any();
-    kani::assume(y >= 2014 && y <= 2021 && mo >= 1 && mo <= 12 && h >= 0 && h <= 23 && mi >= 0 && mi <= 59);
+    let (ylo, yhi) = (YEAR_LO.load(std::sync::atomic::Ordering::SeqCst), YEAR_HI.load(std::sync::atomic::Ordering::SeqCst));
+    kani::assume(y >= ylo && y <= yhi && mo >= 1 && mo <= 12 && h >= 0 && h <= 23 && mi >= 0 && mi <= 59);
     let leap = is_leap(y as i32);
     let dim = MDAYS[(mo - 1) as usize] + if leap && mo == 2 { 1 } else { 0 };
     kani::assume(d >= 1 && (d as i32) <= dim);
@@ -295,6 +304,25 @@ macro_rules! pred_instance {
 pred_instance!(c09_period_predicates, predicates_check_civil);
 pred_instance!(c09_week_predicate, predicates_check_week);
 
+fn predicates_check_civil_wide() { widen_years(); predicates_check_civil(); }
+fn predicates_check_week_wide() { widen_years(); predicates_check_week(); }
+//@ instance: c09_period_predicates_28y c09_week_predicate_28y
+//@ harness: c09_period_predicates_28y c09_week_predicate_28y
+//@ prop: C09
+//@ tier: thorough
+//@ timeout: 3000
+//@ mem: 20
+//@ unwindset: binary_search_by=12
+//@ kernel: as c09_period_predicates
+//@ bound: as c09_period_predicates / c09_week_predicate with civil times in 2001..=2028 (a full 28-year cycle: every combination of leap / common year and weekday of January 1st, every 52/53-week ISO year shape)
+//@ oracle: as c09_period_predicates
+//@ stub: as c09_period_predicates
+//@ assume: jiff's accessors agree with the proleptic Gregorian / ISO-8601 calendar (jiff is trusted)
+//@ outside: as c09_period_predicates; century years
+//@ replay: twin
+pred_instance!(c09_period_predicates_28y, predicates_check_civil_wide);
+pred_instance!(c09_week_predicate_28y, predicates_check_week_wide);
+
 // ---------------------------------------------------------------------------
 // counting logic: ONE call of KeepOptions::matches from an arbitrary counter state (inductive step of
 // "the first n candidates of each rule are kept"; apply() calls matches() once per snapshot, newest first)
@@ -308,7 +336,7 @@ fn any_counter() -> Option<i32> {
 //@ tier: quick
 //@ timeout: 1800
 //@ mem: 16
-//@ unwindset: binary_search_by=12; ^memcmp#0=70; encode_to|to_hex|hex=70; KeepOptions.*matches=11; c09_matches_step=11
+//@ unwindset: binary_search_by=12; ^memcmp#0=70; encode_to|to_hex|hex=70; KeepOptions.*matches=11; c09_matches_step=11; matches_step_body=11
 //@ kernel: KeepOptions::matches (counter bookkeeping for keep-last and the eight period rules, keep-ids), the period predicates, always_false
 //@ bound: one call for a snapshot and its newer neighbour (both with arbitrary valid civil times in 2014..=2021, or no neighbour), symbolic has_next flag, all nine counters symbolic in {unset, -1, 0, 1, 2}, keep-ids empty / matching the snapshot / matching another id; keep-within and keep-tags unset
 //@ oracle: for every rule: the snapshot is a candidate iff it has no newer neighbour, or is the oldest (no next), or lies in another period than its neighbour (keep-last: always); a candidate is kept by that rule iff the rule's counter is not 0, and exactly then a positive counter is decremented by one (-1 stays); a matching keep-id keeps the snapshot without changing how the counters move; the number of reasons equals the number of applicable rules
@@ -327,7 +355,35 @@ fn any_counter() -> Option<i32> {
 #[kani::stub(jiff::Zoned::iso_week_date, st_iso_week_date)]
 #[kani::stub(jiff::civil::ISOWeekDate::year, st_iso_year)]
 #[kani::stub(jiff::civil::ISOWeekDate::week, st_iso_week)]
-pub(crate) fn c09_matches_step() {
+pub(crate) fn c09_matches_step() { matches_step_body(); }
+
+//@ harness: c09_matches_step_28y
+//@ prop: C09
+//@ tier: thorough
+//@ timeout: 3400
+//@ mem: 24
+//@ unwindset: binary_search_by=12; ^memcmp#0=70; encode_to|to_hex|hex=70; KeepOptions.*matches=11; matches_step_body=11
+//@ kernel: as c09_matches_step
+//@ bound: as c09_matches_step with civil times in 2001..=2028 (a full 28-year cycle of year shapes)
+//@ oracle: as c09_matches_step
+//@ stub: as c09_matches_step
+//@ assume: jiff's accessors agree with the calendar
+//@ outside: as c09_matches_step
+//@ replay: twin
+#[kani::proof]
+#[kani::unwind(5)]
+#[kani::stub(std::backtrace::Backtrace::capture, crate::error::verif_harness::stub_backtrace_capture)]
+#[kani::stub(jiff::Zoned::year, st_year)]
+#[kani::stub(jiff::Zoned::month, st_month)]
+#[kani::stub(jiff::Zoned::day_of_year, st_doy)]
+#[kani::stub(jiff::Zoned::hour, st_hour)]
+#[kani::stub(jiff::Zoned::minute, st_minute)]
+#[kani::stub(jiff::Zoned::iso_week_date, st_iso_week_date)]
+#[kani::stub(jiff::civil::ISOWeekDate::year, st_iso_year)]
+#[kani::stub(jiff::civil::ISOWeekDate::week, st_iso_week)]
+pub(crate) fn c09_matches_step_28y() { widen_years(); matches_step_body(); }
+
+fn matches_step_body() {
     let c_new = any_civ();
     let c_sn = any_civ();
     store(0, &c_new);
